@@ -342,27 +342,18 @@ def r03_7_fresh_wrapper(chk):
     """The source wrapper (row window, cast dtypes, data set names) is built anew for every write of every frame."""
     ix = chk.ix
     mk = ix.get_method("LogicalFile", "_make_multi_frame_data")
-    chk.consult(mk)
-    rd = ReachingDefs(mk)
-    mfd = ix.get_class("MultiFrameData")
-    sc = Scope(ix, mk)
-    ctor = [n for n in walk_local(mk.node) if isinstance(n, ast.Call) and ix.infer(n.func, sc) == ("cls", mfd)]
-    if len(ctor) != 1 or len(ctor[0].args) < 2:
-        raise AnalysisError("MultiFrameData construction not found in _make_multi_frame_data")
-    arg = ctor[0].args[1]
-    at = rd.stmt_containing(ctor[0])
-    defs = rd.reaching(arg.id, at) if isinstance(arg, ast.Name) else [arg]
-    ok = bool(defs)
-    for d in defs:
-        if not isinstance(d, ast.Call):
+    from ..terms import pp, contains
+    from ._layout import frame_data_plan
+    plan = frame_data_plan(chk)
+    alts = [(c, a) for c, a, _, _ in plan.alts]
+    ok = bool(plan.alts)
+    for _conds, alt, callee, b in plan.alts:
+        if callee is None:
             ok = False
             continue
-        t = ix.infer(d.func, sc)
-        is_ctor = t is not None and t[0] == "cls" and any(c.name == "SourceDataWrapper" for c in t[1].mro())
-        is_factory = norm(d.func).endswith("SourceDataWrapper.make_wrapper")
-        kws = {k.arg for k in d.keywords}
-        ok = ok and (is_ctor or is_factory) and {"from_idx", "to_idx", "known_dtypes", "mapping"} <= kws
+        window = b.get("from_idx") == ("param", "from_idx") and b.get("to_idx") == ("param", "to_idx")
+        per_frame = all(b.get(k) is not None and contains(b[k], ("param", "fr")) for k in ("known_dtypes", "mapping"))
+        ok = ok and window and per_frame
     chk.require(ok, "R03.7", "wrapper-built-per-write",
                 f"the data wrapper used for a frame can come from somewhere else than a constructor call made in this "
-                f"very write with this write's window / dtypes / mapping ({[norm(d)[:40] if isinstance(d, ast.AST) else d for d in defs]})",
-                mk.where)
+                f"very write with this write's window / dtypes / mapping ({[pp(a)[:60] for _, a in alts]})", mk.where)
